@@ -750,8 +750,9 @@ func (am *AllocatorManager) getDCLocationSuffixMapFromEtcd() (map[string]int32, 
 		if err != nil {
 			return nil, err
 		}
-		splittedKey := strings.Split(string(kv.Key), "/")
-		dcLocation := splittedKey[len(splittedKey)-1]
+		// The dc-location is everything below the prefix, not only the last path element: a dc-location may contain
+		// a '/' ("r1/dc-1"), and must not be taken for the dc-location named like its last element ("dc-1").
+		dcLocation := strings.TrimPrefix(string(kv.Key), am.GetLocalTSOSuffixPathPrefix()+"/")
 		dcLocationSuffix[dcLocation] = int32(suffix)
 	}
 	return dcLocationSuffix, nil
